@@ -16,32 +16,38 @@
 (* prune + push, then the old selector is stopped (-1 on the old route).   *)
 (***************************************************************************)
 EXTENDS Integers, FiniteSets, TLC
-CONSTANTS Clusters, RPCs, Mutant, Eager   \* Eager: the follow-up update runs inside the step that caused it
-VARIABLES route, ref, active, inConfig, rpc, dirty, ncommit
-cvars == <<route, ref, active, inConfig, rpc, dirty, ncommit>>
+CONSTANTS Clusters, RPCs, MaxMult, Mutant, Eager   \* Eager: the follow-up update runs inside the step that caused it
+VARIABLES route, mult, ref, active, inConfig, rpc, dirty, ncommit
+cvars == <<route, mult, ref, active, inConfig, rpc, dirty, ncommit>>
 Done == 100
-CInit == /\ route = {} /\ ref = [c \in Clusters |-> 0] /\ active = {} /\ inConfig = {}
+CInit == /\ route = {} /\ mult = [c \in Clusters |-> 0] /\ ref = [c \in Clusters |-> 0] /\ active = {} /\ inConfig = {}
          /\ rpc = [i \in RPCs |-> 0] /\ dirty = FALSE /\ ncommit = [i \in RPCs |-> 0]
 Prune(a, rf) == {c \in a : rf[c] > 0}
-RouteUpdate(S) ==
-  /\ S # {} /\ S \subseteq Clusters
-  /\ LET r1 == [c \in Clusters |-> ref[c] + (IF c \in S THEN 1 ELSE 0)]
+\* A route configuration is a MULTISET of entries (routes x weighted clusters): m[c] = number of entries
+\* naming cluster c.  The config selector holds ONE reference per distinct cluster, however many entries
+\* name it (Mutant 3: acquired once per entry; Mutant 4: released once per entry).
+Acq(m, c) == IF m[c] = 0 THEN 0 ELSE IF Mutant = 3 THEN m[c] ELSE 1
+Rel(c) == IF mult[c] = 0 THEN 0 ELSE IF Mutant = 4 THEN mult[c] ELSE 1
+RouteUpdate(m) ==
+  LET S == {c \in Clusters : m[c] > 0} IN
+  /\ S # {}
+  /\ LET r1 == [c \in Clusters |-> ref[c] + Acq(m, c)]
          a1 == Prune(active \cup S, r1)
-         r2 == [c \in Clusters |-> r1[c] - (IF c \in route THEN 1 ELSE 0)] IN
-     /\ ref' = r2 /\ route' = S
+         r2 == [c \in Clusters |-> r1[c] - Rel(c)] IN
+     /\ ref' = r2 /\ route' = S /\ mult' = [c \in Clusters |-> m[c]]
      /\ IF Eager THEN active' = Prune(a1, r2) /\ inConfig' = Prune(a1, r2) /\ dirty' = FALSE
-        ELSE active' = a1 /\ inConfig' = a1 /\ dirty' = (\E c \in a1 : r2[c] = 0)
+        ELSE active' = a1 /\ inConfig' = a1 /\ dirty' = (\E c \in a1 : r2[c] <= 0)
   /\ UNCHANGED <<rpc, ncommit>>
 \* the follow-up update after a count dropped to zero: prune + push
 Reconcile ==
   /\ dirty /\ dirty' = FALSE
   /\ active' = Prune(active, ref) /\ inConfig' = Prune(active, ref)
-  /\ UNCHANGED <<route, ref, rpc, ncommit>>
+  /\ UNCHANGED <<route, mult, ref, rpc, ncommit>>
 Select(i, c) ==
   /\ rpc[i] = 0 /\ c \in route
   /\ rpc' = [rpc EXCEPT ![i] = c]
   /\ ref' = IF Mutant = 1 THEN ref ELSE [ref EXCEPT ![c] = @ + 1]
-  /\ UNCHANGED <<route, active, inConfig, dirty, ncommit>>
+  /\ UNCHANGED <<route, mult, active, inConfig, dirty, ncommit>>
 \* OnCommitted (first call)
 Commit(i) ==
   /\ rpc[i] \in Clusters
@@ -51,7 +57,7 @@ Commit(i) ==
      /\ IF Eager THEN active' = Prune(active, r1) /\ inConfig' = Prune(active, r1) /\ dirty' = FALSE
         ELSE dirty' = (dirty \/ (Mutant # 1 /\ ref[c] = 1)) /\ UNCHANGED <<active, inConfig>>
   /\ rpc' = [rpc EXCEPT ![i] = Done] /\ ncommit' = [ncommit EXCEPT ![i] = @ + 1]
-  /\ UNCHANGED route
+  /\ UNCHANGED <<route, mult>>
 \* OnCommitted called again: sync.OnceFunc makes it a no-op (Mutant 2: it decrements again)
 CommitAgain(i) ==
   /\ rpc[i] = Done
@@ -59,8 +65,8 @@ CommitAgain(i) ==
        THEN \E c \in Clusters : ref[c] > 0 /\ ref' = [ref EXCEPT ![c] = @ - 1] /\ dirty' = (dirty \/ ref[c] = 1)
                                 /\ ncommit' = [ncommit EXCEPT ![i] = 2]
        ELSE UNCHANGED <<ref, dirty, ncommit>>
-  /\ UNCHANGED <<route, active, inConfig, rpc>>
-CNext == \/ \E S \in SUBSET Clusters : RouteUpdate(S)
+  /\ UNCHANGED <<route, mult, active, inConfig, rpc>>
+CNext == \/ \E m \in [Clusters -> 0..MaxMult] : RouteUpdate(m)
          \/ Reconcile
          \/ \E i \in RPCs : Commit(i) \/ CommitAgain(i) \/ \E c \in Clusters : Select(i, c)
 
